@@ -2,6 +2,7 @@ import OdxVerif.Props.C02
 import OdxVerif.Proofs.FlatMsg
 import OdxVerif.Proofs.ComposeMsg
 import OdxVerif.Proofs.MuxTier
+import OdxVerif.Proofs.MuxDefault
 /-! # C01 — encoding a message and decoding it returns the values that were encoded
     Proved tier: **atomic objects** inside an arbitrary surrounding message (the base case of the
     round-trip argument, for every bit length ≥ 1, bit position, byte order and `A_INT32` encoding),
@@ -155,5 +156,16 @@ example : Items.okAll exItems ∧ Items.namesOk exItems := by
       int32Known, int32InRange]
   · simp [Item.ok, Tree.okAll, Tree.namesOk, Obj.ok, Obj.encOk, Obj.sizeOk, Obj.inRange]
   · simp [exItems, Items.namesOk, Item.name, Tree.name]
+
+/-- **The switch key written for a DEFAULT-CASE selects the DEFAULT-CASE again** — for every list of CASEs, in any
+    declaration order, overlapping or not: `defaultCaseKey` (the model of `Multiplexer._get_default_case_key`: sort the
+    limits, scan) is non-negative and lies in no case's key range, so the decoder's look-up falls through to the
+    default case. (Three independent seeded changes removed the `sorted()` there.) -/
+theorem C01_mux_default_key (cases : List MuxCaseD) :
+    0 ≤ defaultCaseKey cases ∧ caseOfKey (defaultCaseKey cases) cases = none ∧
+    ∀ c ∈ cases, ¬ (c.lower ≤ defaultCaseKey cases ∧ defaultCaseKey cases ≤ c.upper) :=
+  ⟨defaultCaseKey_nonneg cases, caseOfKey_default cases, defaultCaseKey_unclaimed cases⟩
+
+example : defaultCaseKey [.mk "high" 16 31 none, .mk "b" 1 2 none, .mk "low" 0 15 none, .mk "x" 32 32 none] = 33 := by decide
 
 end OdxVerif.Codec
